@@ -94,7 +94,7 @@ pub fn run_c04_b(ctx: &Ctx) -> Outcome {
         });
         for (topo, out, viol) in res {
             for v in viol {
-                o.violation("c04b:protocol-violation-seen-by-node", v, json!({"part": "b"}));
+                o.node_violation("c04b", &v, json!({"part": "b"}));
             }
             match out {
                 Err(e) => o.inconclusive(format!("C04 part b world could not start: {e}")),
